@@ -19,7 +19,7 @@ out="$WORKDIR/bin/vcheck-$variant"
 case "$variant" in
   plain-*)
     # one main per property (harness/cmd/cXX) so that a package under development cannot break the others
-    go build $MODFLAG -o "$out" "./cmd/${variant#plain-}" ;;
+    go build -trimpath $MODFLAG -o "$out" "./cmd/${variant#plain-}" ;;
   *)
     kind="${variant%%-*}"; rest="${variant#*-}"
     if [ -x "$VERIF/bin/build-$variant.sh" ]; then
